@@ -1004,6 +1004,7 @@ class Engine:
         # 'realise': str()/format() of a symbolic int enumerates its values (the result is data);
         # 'placeholder': formatting is logging only and yields a fixed token
         self.format_mode = 'realise'
+        self.forced = None
         self.model = None
         # (file, line) sites where hashing a symbolic int must realise it (lookup in a dict with
         # concrete keys); learnt automatically from KeyErrors raised with a symbolic key
@@ -1174,6 +1175,14 @@ class Engine:
         ts = z3.simplify(t)
         if z3.is_int_value(ts):
             return ts.as_long()
+        if self.forced is not None:
+            # candidate-driven exploration: the harness supplies the value, nothing is checked here;
+            # feasibility and exhaustiveness of the candidate set are separate obligations
+            v = self.forced.pop(0)
+            self.pc.append(t == v)
+            self.solver.add(t == v)
+            self.model = None
+            return v
         if self.pos < len(self.prefix):
             kind, val = self.prefix[self.pos]
             if kind == 'v':
@@ -1207,6 +1216,18 @@ class Engine:
         self.model = None
         self.stats.realised.append(str(t)[:60])
         return v
+
+    def realise_bv(self, bv, signed=True) -> int:
+        """Realise a bit-vector term (kept in the BV theory when a value is forced, so that the path
+        condition stays in QF_BVFP)."""
+        if self.forced is not None:
+            v = self.forced.pop(0)
+            c = bv == z3.BitVecVal(v, bv.size())
+            self.pc.append(c)
+            self.solver.add(c)
+            self.model = None
+            return v
+        return self.realise_int(z3.BV2Int(bv, is_signed=signed))
 
     def note_division(self, t):
         self.div_guards.append(t)
@@ -1428,7 +1449,7 @@ class SymFP:
     def __int__(self):
         """int(x): truncation toward zero; realised (forks over the feasible values)."""
         bv = z3.fpToSBV(z3.RTZ(), self.t, z3.BitVecSort(32))
-        return engine().realise_int(z3.BV2Int(bv, is_signed=True))
+        return engine().realise_bv(bv)
 
     def ceil_int(self, bits=32):
         """ceil(x) as a signed bit-vector (numpy's arange length)."""
